@@ -30,7 +30,7 @@ const rule = "a case is one logger life in a fresh process: 1-32 producer gorout
 	"initial levels from the -log/-plog flags, some phases with level changes racing with the producers), 96 call sites (directory x plain/f/tracer-method x severity), " +
 	"unique lines, texts without identity (empty, blank, line breaks only) and with trailing/embedded line breaks or 1-40 kB long, runs of identical lines, A-B-A repeats, texts shared by goroutines, equal texts from different call sites, context tracers (0-6 lines, one in ten 31-500 lines, optionally collected by 3 goroutines); " +
 	"writer free-running or externally triggered (periods 0-20 ms, or withheld until > 1024 lines are queued, or never), adapter delayed or held inside Write until all producers are parked; " +
-	"Shutdown after all producers finished or after a PRNG-chosen number of returned calls. Families: free, free-hold, sched, sched-withheld, small, squeeze (GOMAXPROCS 1-2 + busy goroutines during Shutdown), twin (plain lines through a nil tracer and tracer submissions with the same call site and main text logged back to back, 1-3 goroutines, writer triggered only after everything is queued), idle (free-running writer; at every barrier the adapter is held inside the final Write of a batch while more lines are logged, then released, then an idle verdict from a goroutine dump). In 2 of 5 cases 2-3 goroutines call Shutdown concurrently. " +
+	"Shutdown after all producers finished or after a PRNG-chosen number of returned calls. Families: free, free-hold, sched, sched-withheld, small, squeeze (GOMAXPROCS 1-2 + busy goroutines during Shutdown), twin (plain lines through a nil tracer and tracer submissions with the same call site and main text logged back to back, 1-3 goroutines, writer triggered only after everything is queued), idle (free-running writer; at every barrier the adapter is held inside the final Write of a batch while more lines are logged, then released, then an idle verdict from a goroutine dump), early (Start, 1-60 lines and Shutdown back to back in one goroutine, GOMAXPROCS 1/2/default). In 2 of 5 cases 2-3 goroutines call Shutdown concurrently. " +
 	"distinct = distinct scenario signatures (family, build, producers, lines, levels per phase, shutdown moment); non-trivial = at least 10 log calls and at least one line delivered"
 
 // Watchdogs. A case normally takes 0.05-5 s (adapter delays are capped at ~3 s per
@@ -196,6 +196,17 @@ func main() {
 				}
 			}
 		}
+		// Start, a handful of lines and Shutdown back to back (family early; tiny cases).
+		if only == "" || only == "early" {
+			for i := 0; i < cfg.N(48, 300); i++ {
+				add(genScenario(cfg, 400000+i, "plain", "early"), fmt.Sprintf("plain-ea%04d", i))
+			}
+			if cfg.BinRace != "" {
+				for i := 0; i < cfg.N(16, 80); i++ {
+					add(genScenario(cfg, 400000+i, "race", "early"), fmt.Sprintf("race-ea%04d", i))
+				}
+			}
+		}
 		if only == "" || only == "squeeze" {
 			for i := 0; i < nPlain*2; i++ {
 				add(genScenario(cfg, 100000+i, "plain", "squeeze"), fmt.Sprintf("plain-sq%04d", i))
@@ -284,6 +295,7 @@ func main() {
 		rep.Floor(rep.Counter("global_level_changes_with_pkg_levels_untouched") >= 8, "global_level_changes_with_pkg_levels_untouched=%d", rep.Counter("global_level_changes_with_pkg_levels_untouched"))
 		rep.Floor(rep.Counter("odd_text_lines") >= 2000 && rep.Counter("odd_text_submissions") >= 100, "odd_text_lines=%d odd_text_submissions=%d", rep.Counter("odd_text_lines"), rep.Counter("odd_text_submissions"))
 		rep.Floor(rep.Counter("tracer_blocks_with_31_to_500_lines") >= 100, "tracer_blocks_with_31_to_500_lines=%d", rep.Counter("tracer_blocks_with_31_to_500_lines"))
+		rep.Floor(rep.Counter("cases_shutdown_right_after_start") >= 30, "cases_shutdown_right_after_start=%d", rep.Counter("cases_shutdown_right_after_start"))
 		rep.Floor(rep.Counter("cases_shutdown_mid") >= 5, "cases_shutdown_mid=%d", rep.Counter("cases_shutdown_mid"))
 		rep.Floor(rep.Counter("lines_below_level") >= 1000 && rep.Counter("lines_must") >= 10000, "lines: must=%d below=%d", rep.Counter("lines_must"), rep.Counter("lines_below_level"))
 	}
